@@ -405,7 +405,7 @@ Fixpoint wf_ooo (v : view) : bool :=
                     match vs with [] => true | v :: vs => wf_ooo v && go vs end) vs
   | VSuspend _ c => wf_ooo c
   | VBoundary _ fb c sm => wf_ooo fb && wf_ooo c && (sm || is_nil (futures_of fb))
-  | VAppend _ => false
+  | VAppend c => wf_ooo c
   | VRawAsync _ _ => false
   end.
 Lemma wf_ooo_tuple v vs : wf_ooo (VTuple (v :: vs)) = wf_ooo v && wf_ooo (VTuple vs).
@@ -435,6 +435,7 @@ Proof.
   - cbn [to_html]. destruct (d f); [apply IHv; auto|apply plain_nil].
   - cbn [to_html]. cbn [wf_ooo] in W. apply andb_true_iff in W. destruct W as [W _].
     apply andb_true_iff in W. destruct W as [W1 _]. apply IHv1; auto.
+  - cbn [to_html fst]. cbn [wf_ooo] in W. apply IHv; auto.
   - cbn [to_html fst]. apply plain_tb.
 Qed.
 
@@ -456,6 +457,7 @@ Proof.
   - cbn [resolved]. apply IHv; auto.
   - cbn [resolved]. cbn [wf_ooo] in W. apply andb_true_iff in W. destruct W as [W _].
     apply andb_true_iff in W. destruct W as [W1 W2]. destruct sm; [apply IHv2|apply IHv1]; auto.
+  - cbn [resolved fst]. cbn [wf_ooo] in W. apply IHv; auto.
   - cbn [resolved fst]. apply plain_tb.
 Qed.
 
@@ -619,6 +621,19 @@ Ltac sbg :=
 
 Lemma next_id_bid (b : vsb) i : bid b = Some i -> bid (next_id b) = Some (bump 1 i).
 Proof. intros E. cbn [next_id bid set_bid]. rewrite E. reflexivity. Qed.
+
+Lemma split_last_snoc p x : split_last (p ++ [x]) = Some (p, x).
+Proof.
+  induction p as [|y p IH]; [reflexivity|]. simpl. rewrite IH.
+  destruct (p ++ [x]) eqn:E; [destruct p; discriminate|reflexivity].
+Qed.
+Lemma merge_bump i hi : i <> [] -> merge_id (Some i) (Some (bump hi i)) = Some (bump hi i).
+Proof.
+  intros H. destruct (nonempty_snoc i H) as [p [x E]]. subst. rewrite bump_snoc.
+  unfold merge_id. rewrite !split_last_snoc, list_N_eqb_refl. cbn [andb].
+  destruct (x <? x + N.of_nat hi)%N eqn:El; [reflexivity|].
+  apply N.ltb_ge in El. assert (hi = 0) by lia. subst hi. cbn. rewrite N.add_0_r. reflexivity.
+Qed.
 
 Lemma render_ooo_spec chk d v : wf_ooo v = true ->
   forall b i0 p q, bid b = Some i0 -> i0 <> [] -> peq p q ->
@@ -802,6 +817,21 @@ Proof.
         unfold fin, k. cbn [o_view o_pos]. unfold x in *. destruct sm; [exact R1|].
         cbn [orb] in W3. apply is_nil_true in W3. unfold F. rewrite (to_html_nofut d v1 W3 p).
         exact R1.
+  - (* append: the ErrorBoundary call pattern *)
+    cbn [wf_ooo] in W.
+    assert (chk = true -> pf true false d v q = true) as PF' by (intros C; apply (PF C)).
+    destruct (IHv W (sb_new (clone_id b)) i0 p q Eb Hn E PF')
+      as [t [ks [rs [hi [A1 [A2 [A3 [A4 [A5 A6]]]]]]]]].
+    exists t, ks, rs, hi. unfold ospec in *. cbn [render resolved].
+    destruct (render true d v (sb_new (clone_id b)) p) as [nb p1]. cbn [fst snd] in *.
+    cbn [sync_buf chunks sb_new app] in A1, A2.
+    unfold append. rewrite A2.
+    assert (existsb (fun c : vchunkT => match c with COoo _ _ => false | _ => true end) (cof ks) = false) as Ex.
+    { clear. induction ks as [|[f k] ks IH]; simpl; auto. }
+    rewrite Ex. sbg. rewrite A1, A3, Eb.
+    split; [reflexivity|split; [reflexivity|split; [apply merge_bump; auto|
+      split; [exact A4|split; [exact A5|]]]]].
+    intros C. destruct (A6 C) as [B1 _]. split; [exact B1|exact E].
   - (* push_sync *)
     exists (tb s), [], [], 0. cbn [render fst snd]. sb_simpl. cbn [cof map]. rewrite app_nil_r.
     split; [reflexivity|split; [reflexivity|split; [exact Eb|split; [|split]]]].
